@@ -399,6 +399,7 @@ def explore_body(I, src, run_body, acc_names, poisoned, env, want_updates=()):
 
     def restore():
         for (t, nm, na, np_, nj, nmap) in snap:
+            t._mkeys = None
             del t.members[nm:]
             del t.all_facts[na:]
             del t.pair_facts[np_:]
@@ -558,6 +559,22 @@ def apply_paths(I, src, sterm, j, results, acc_boxes, env, target_names, note=""
             raise Unsupported("nested abstract list appended inside an abstracted loop")
         try:
             etype = I.elem_type_of(first)
+            # numeric fields: real as soon as one emitted value is real (python lists may mix int and float)
+            for p in paths:
+                for o in p.outs:
+                    et2 = I.elem_type_of(o)
+                    if et2.kind != etype.kind:
+                        raise Unsupported("abstracted loop appends values of different shapes")
+                    if etype.kind == "scalar":
+                        if et2.sort == core.REAL and etype.sort == INT:
+                            etype = et2
+                    else:
+                        if len(et2.sorts) != len(etype.sorts):
+                            raise Unsupported("abstracted loop appends tuples of different arity")
+                        etype.sorts = [core.REAL if (a == core.REAL or b == core.REAL) and a in (core.REAL, INT) and b in (core.REAL, INT) else a
+                                       for a, b in zip(etype.sorts, et2.sorts)]
+                        if et2.ntcls is not etype.ntcls:
+                            etype.ntcls = etype.ntcls if et2.ntcls is None else (et2.ntcls if etype.ntcls is None else etype.ntcls)
         except Unsupported:
             raise Unsupported("abstracted loop appends non-element values")
         for p in paths:
